@@ -52,6 +52,11 @@ class TFLiteSubgraph:
         self.tensors = []
         for idx in range(subgraph.TensorsLength()):
             self.tensors.append(self.parse_tensor(subgraph.Tensors(idx)))
+            if self.tensors[-1].is_variable and self.tensors[-1].values is not None:
+                # a variable tensor holds state that the runtime initialises; one that comes with constant data is rejected by TFLite as well
+                raise InputFileError(
+                    graph.name, f"Variable tensor '{self.tensors[-1].name}' has a data buffer, which is not supported"
+                )
 
         self.virtual_outputs = []
         for idx in range(subgraph.OperatorsLength()):
